@@ -3,7 +3,7 @@ CONSTANTS
   MaxRecs = 2
   Strs = {1, 2, 3, 4, 5, 6, 7, 8, 9, 10}
   HdrStrs = {4, 9}
-  CutStrs = {3, 9}
+  CutStrs = {3}
   CutRecs = 2
   PreKinds = {"none", "base"}
   Layouts = {"gaps", "canon"}
